@@ -614,7 +614,8 @@ class AttributeCollection(MutableMapping[int, Attribute]):
             segments.append(SEQUENCE(as_seq))
         if as_set:
             segments.append(SET(as_set))
-        aspath = AS2Path.make_aspath(segments)
+        # the merged path holds the 4-byte ASNs of AS4_PATH: it can only be packed 4 bytes wide
+        aspath = AS2Path.make_aspath(segments, asn4=True)
         self.add(aspath, key)
 
     def __hash__(self) -> int:
